@@ -262,7 +262,12 @@ class C17(Check):
         if any(l in after for l in ("after failure", "leave ", "done")):
             bad("ran-on", "statements after the failing one were executed")
         # trace = the frame labels (`<file>.mmm#<function>` / `<native code>#<built-in>`) in order of appearance, whatever decorates them
-        got = [t.rstrip(",;") for t in re.findall(r"(<native code>#\S+|[^\s#<>]+\.mmm#\S+)", after)]
+        # (a frame line carries its label and decoration only; a label mentioned inside a sentence of the cause chain is not a frame)
+        got = []
+        for tl_ in after.split("\n"):
+            mfl = re.match(r"^[\s\W\d]*?(?:at\s+|in\s+)?(<native code>#\S+|[^\s#<>`'\"]+\.mmm#\S+?)[\s,;.:]*$", tl_)
+            if mfl:
+                got.append(mfl.group(1))
         if not got:
             bad("no-trace", f"no call stack trace in the report: {after[:300]}")
         else:
